@@ -163,7 +163,7 @@ func routingFn(file, recv, name string) *ast.FuncDecl {
 	return findFunc(parseFile("internal/routing/"+file), recv, name)
 }
 
-func coqStrList(xs []string) string {
+func coqStrListRouting(xs []string) string {
 	q := make([]string, len(xs))
 	for i, x := range xs {
 		q[i] = coqString(x)
@@ -246,7 +246,7 @@ func genC09(g *gen) {
 	less := func(file, recv, name string) string {
 		return "[i].Metric " + cmpOp(routingFn(file, recv, name), "[i].Metric", "[j].Metric") + " [j].Metric"
 	}
-	g.line("Definition gen_sort_less : list string := %s.", coqStrList([]string{
+	g.line("Definition gen_sort_less : list string := %s.", coqStrListRouting([]string{
 		less("domain.go", "DomainTable", "sortRoutesInMap"), less("forward.go", "ForwardTable", "sortRoutes"), less("agent.go", "AgentTable", "sortRoutes")}))
 	hd := func(file, recv string) bool {
 		fd := routingFn(file, recv, "Lookup")
@@ -291,10 +291,10 @@ func genC10(g *gen) {
 		cleans = append(cleans, cleanupRule(cn))
 	}
 	g.line("(* order: CIDR table, domain table, forward table, agent table *)")
-	g.line("Definition gen_update_rule : list string := %s.", coqStrList(rules))
-	g.line("Definition gen_loop_check : list string := %s.", coqStrList(loops))
-	g.line("Definition gen_peer_filter : list string := %s.", coqStrList(peers))
-	g.line("Definition gen_cleanup_rule : list string := %s.", coqStrList(cleans))
+	g.line("Definition gen_update_rule : list string := %s.", coqStrListRouting(rules))
+	g.line("Definition gen_loop_check : list string := %s.", coqStrListRouting(loops))
+	g.line("Definition gen_peer_filter : list string := %s.", coqStrListRouting(peers))
+	g.line("Definition gen_cleanup_rule : list string := %s.", coqStrListRouting(cleans))
 	// the agent-table slot also compares the next hop
 	aa := routingFn("agent.go", "AgentTable", "AddRoute")
 	slot := "?"
@@ -339,14 +339,14 @@ func genC10(g *gen) {
 		}
 		return best
 	}
-	g.line("Definition gen_disconnect_handler_calls : list string := %s.", coqStrList(calls("HandlePeerDisconnect")))
+	g.line("Definition gen_disconnect_handler_calls : list string := %s.", coqStrListRouting(calls("HandlePeerDisconnect")))
 	cl := []string{}
 	for _, c := range calls("CleanupStale") {
 		if c != "CleanupStaleNodeInfo" {
 			cl = append(cl, c)
 		}
 	}
-	g.line("Definition gen_cleanup_loop_calls : list string := %s.", coqStrList(cl))
+	g.line("Definition gen_cleanup_loop_calls : list string := %s.", coqStrListRouting(cl))
 	// metric increment of learned routes (uint16 arithmetic)
 	mf := parseFile("internal/routing/manager.go")
 	inc := 0
